@@ -343,12 +343,12 @@ def run_conv(c, rec):
 
 
 SUBCHECKS = [
-    SubCheck("C13/roundtrip", run_roundtrip, strategy=geom_cases, n={"quick": 1500, "thorough": 40000},
+    SubCheck("C13/roundtrip", run_roundtrip, strategy=geom_cases, n={"quick": 3000, "thorough": 40000},
              shards={"quick": 4, "thorough": 16}),
-    SubCheck("C13/batch", run_batch, strategy=geom_cases, n={"quick": 1500, "thorough": 40000},
+    SubCheck("C13/batch", run_batch, strategy=geom_cases, n={"quick": 3000, "thorough": 40000},
              shards={"quick": 4, "thorough": 16}),
     SubCheck("C13/step_grids", run_step, strategy=step_cases, n={"quick": 3000, "thorough": 100000},
              shards={"quick": 4, "thorough": 16}),
-    SubCheck("C13/conversions", run_conv, strategy=geom_cases, n={"quick": 1000, "thorough": 20000},
+    SubCheck("C13/conversions", run_conv, strategy=geom_cases, n={"quick": 4000, "thorough": 20000},
              shards={"quick": 4, "thorough": 16}),
 ]
